@@ -1,14 +1,35 @@
 from plans import step
 
+def _subst(name, backend, quick_args, thorough_args):
+    # the exhaustive enumeration does not depend on n; n is the number of additional random
+    # substitutions (per shard).  quick and thorough differ in the enumeration flags, so there are
+    # two steps per back end, one of which is switched off (n = 0) in each tier.
+    q = dict(name=name + "-quick", harness="subst", model="subst", n=dict(quick=16 * 30, thorough=0),
+             shards=dict(quick=16, thorough=1), args=[backend] + quick_args)
+    t = dict(name=name + "-full", harness="subst", model="subst", n=dict(quick=0, thorough=16 * 2000),
+             shards=dict(quick=1, thorough=16), args=[backend] + thorough_args)
+    return [q, t]
+
 PLAN = dict(
         coq_targets=["Props/C11.vo"],
         steps=[
             step("parallel-moves-generic", "pm", "pm", 3000, 200000),
-        ],
-        rule="random move graphs with in-degree <= 1 over up to 10 abstract temporaries (cycles, chains, fan-out, self-moves, "
-             "sources without targets); the implementation's generic parallel_moves is observed through a recording backend; "
-             "a case is non-trivial when the emitted move list is non-empty; distinct = distinct move graphs",
-        explanation="theorems: generic parallel-move correctness and termination for all graphs; correspondence: model output = Rust output, "
-                    "and on disagreement the recorded moves are executed on marker values against the simultaneous assignment",
-        assumptions=["the recording backend sees exactly the calls the generic code makes (public traits of axcut2backend)"],
+        ] + _subst("subst-x86", "x86", ["--small", "4", "--stride5", "23", "--window", "3", "--shards", "16"],
+                                         ["--small", "5", "--shards", "16"])
+          + _subst("subst-a64", "a64", ["--small", "3", "--stride5", "37", "--window", "4", "--shards", "16"],
+                                         ["--small", "5", "--shards", "16"])
+          + _subst("subst-rv", "rv", ["--small", "4", "--stride5", "13", "--shards", "16"],
+                                       ["--small", "5", "--shards", "16"]),
+        rule="(pm) random move graphs with in-degree <= 1 over up to 10 abstract temporaries, observed through a recording backend. "
+             "(subst-<backend>) explicit substitutions compiled by the real Substitute::code_statement: EXHAUSTIVELY all maps from m <= 5 new "
+             "to n <= 5 old variables x all integer/object kind assignments x every offset of the window across the register/spill boundary "
+             "(x86-64: 9 offsets; quick tier: complete for m,n <= 4, every 23rd shape at 3 of the 9 offsets beyond; thorough: complete), plus random "
+             "substitutions of up to 40 variables (rotations through the spill area, fan-out >= 3, dropped objects); each is executed on the ISA "
+             "semantics from 4 initial heaps (unique / shared / null / aliased objects); non-trivial = at least one move or count update emitted",
+        explanation="theorems: generic parallel-move correctness and termination for all graphs; the x86-64 instantiation on the ISA semantics; "
+                    "the move graph of every Substitute has in-degree <= 1; reference-count updates emitted exactly once per object. "
+                    "correspondence: model output = Rust output; ALWAYS the emitted instructions are executed on the ISA semantics against "
+                    "the simultaneous assignment, the reference counts, the deferred-free list and the frame",
+        assumptions=["the recording backend sees exactly the calls the generic code makes (public traits of axcut2backend)",
+                     "the ISA semantics of Sem/X86Sem.v (shared with C06) is the meaning of the emitted x86-64 instructions"],
     )
